@@ -77,6 +77,10 @@ impl Sink {
 
 /// capacity sentinel: "ask the matching max_* query for the remaining chunk and use exactly that"
 pub const CAP_QUERY: usize = usize::MAX;
+/// capacity sentinel: like CAP_QUERY but the destination is exactly the answer, even when that
+/// is below the documented general minimum (what C07 states: "at least as large as the value
+/// returned"); callers such as an end-of-stream flush sized by max_*(0) do exactly this
+pub const CAP_QUERY_EXACT: usize = usize::MAX - 2;
 /// capacity sentinel: ample (worst case for the whole stream)
 pub const CAP_AMPLE: usize = usize::MAX - 1;
 
@@ -124,7 +128,7 @@ impl DecHistory {
             "stream_hex": hex(&self.stream),
             "cuts": self.cuts,
             "last_on_empty_call": self.last_on_empty,
-            "caps": self.caps.iter().map(|c| match *c { CAP_QUERY => json!("query"), CAP_AMPLE => json!("ample"), n => json!(n) }).collect::<Vec<_>>(),
+            "caps": self.caps.iter().map(|c| match *c { CAP_QUERY => json!("query"), CAP_QUERY_EXACT => json!("query-exact"), CAP_AMPLE => json!("ample"), n => json!(n) }).collect::<Vec<_>>(),
             "fill": self.fill,
             "align": self.align,
         })
@@ -145,6 +149,7 @@ impl DecHistory {
                 .iter()
                 .map(|x| match x.as_str() {
                     Some("query") => CAP_QUERY,
+                    Some("query-exact") => CAP_QUERY_EXACT,
                     Some(_) => CAP_AMPLE,
                     None => x.as_u64().unwrap() as usize,
                 })
@@ -698,14 +703,18 @@ impl DecDriver {
                 } else {
                     let c = h.caps[cap_i % h.caps.len()];
                     cap_i += 1;
-                    if c == CAP_QUERY {
+                    if c == CAP_QUERY || c == CAP_QUERY_EXACT {
                         from_query = true;
                         let q = match (h.sink.is_utf16(), h.repl) {
                             (true, _) => dec.max_utf16_buffer_length(src.len()),
                             (false, true) => dec.max_utf8_buffer_length(src.len()),
                             (false, false) => dec.max_utf8_buffer_length_without_replacement(src.len()),
                         };
-                        q.unwrap_or(ample).max(h.sink.min_cap())
+                        if c == CAP_QUERY_EXACT {
+                            q.unwrap_or(ample)
+                        } else {
+                            q.unwrap_or(ample).max(h.sink.min_cap())
+                        }
                     } else if c == CAP_AMPLE {
                         ample
                     } else {
